@@ -102,4 +102,20 @@ pub open spec fn build_regions_ok(reg0: &TypeRegistry, scope: Seq<ItemPath>, stm
         fields_built(reg0, scope, stmts, stmts.len() as int, pending) && (own is Some <==> first_is_vftable(stmts))
         && resolve_regions_spec(reg, p, pending, own, target, vft, out, size)
 }
+
+/// C05 (attachment): the functions of the type's `impl` block are the last entries of its associated functions,
+/// in declaration order, each the semantic image (`fn_built`) of its declaration
+pub open spec fn impl_functions_attached(reg: &TypeRegistry, scope: Seq<ItemPath>, blk: Option<grammar::FunctionBlock>, fns: Seq<Function>) -> bool {
+    match blk {
+        None => true,
+        Some(b) => {
+            let n = b.functions@.len();
+            &&& fns.len() >= n
+            &&& forall|k: int| 0 <= k < n ==> fn_built(reg, scope, false, #[trigger] b.functions@[k], fns[fns.len() - n + k])
+        },
+    }
+}
+pub open spec fn impl_block_of(m: &crate::semantic::Module, p: ItemPath) -> Option<grammar::FunctionBlock> {
+    if m.impls@.contains_key(p) { Some(m.impls@[p]) } else { None }
+}
 }
